@@ -107,3 +107,20 @@ Example C05_premises_inhabited :
                  e_add := [c_bs; c_dq]; e_filter := [] |} = true /\
   no_bs_adjacent [Lit c_bs; Lit 97%N; Multi; Lit c_star] = true.
 Proof. split; reflexivity. Qed.
+
+(* ---- through the backend: the complete leaf renderer of TextQueryBackend on a string value ---- *)
+From PS Require Import Model.StrOp Model.Leaf Spec.Atom Proofs.LeafStrP.
+(* For every flag set of the verification backend (always-quoting), every field name and every string
+   value, in both template contexts: the rendered text (operator selection, slicing, escaping, quoting of
+   the value; escaping and quoting of the field name), decoded by the target language's own rules, is a
+   string atom on the original field name with the source's case sensitivity whose pattern matches
+   exactly the subjects the source pattern matches. *)
+Theorem C05_backend_string_leaf : forall extra k neg f fo pm cased sv txt,
+  wok extra = true -> k_qpat k = None ->
+  fo_ok (W_of extra) f fo = true -> val_ok (W_of extra) f (LStr cased sv) = true ->
+  render_leaf (vb k) neg f fo pm (LStr cased sv) = Ok txt ->
+  exists a c op l, atom_decode (W_of extra) txt = Some a /\ a_pred a = AStr c op l /\
+    a_field a = f /\ c = cased /\
+    forall subj, wild_match (apattern op l) subj = wild_match (items sv) subj.
+Proof. exact backend_string_leaf. Qed.
+Print Assumptions C05_backend_string_leaf.
